@@ -84,7 +84,8 @@ def main():
         dst = os.path.join(VERIF, 'seeded', keep)
         os.makedirs(dst, exist_ok=True)
         for f in ('patch.diff', 'demo.py'):
-            shutil.copy(os.path.join(d, f), dst)
+            if os.path.abspath(d) != os.path.abspath(dst):
+                shutil.copy(os.path.join(d, f), dst)
         meta = {}
         try:
             meta = json.load(open(os.path.join(d, 'meta.json')))
